@@ -217,6 +217,8 @@ to a round that is neither — every accepted report ends in exactly one aggrega
 def c07RoundMonitor (out : String) : Bool × String := Id.run do
   let mut qs : List Query := []
   let mut as : List Oracle.Agg := []
+  let mut prevQs : List Query := []
+  let mut prevAs : List Oracle.Agg := []
   let mut h := 0
   for rec in out.splitOn " ;; " do
     match rec.splitOn " " with
@@ -224,6 +226,15 @@ def c07RoundMonitor (out : String) : Bool × String := Id.run do
     | "Q" :: rest => qs := (commaList (" ".intercalate rest)).filterMap parseQuery
     | "A" :: rest => as := (commaList (" ".intercalate rest)).filterMap parseAggRec
     | "P" :: rest =>
+      -- a tip stays with its query until an aggregate of that query pays it: a tipped entry of the previous block is still
+      -- there (same query, at least the same amount) unless an aggregate of that query appeared in this block
+      for q in prevQs do
+        if q.amount > 0 then
+          let kept := qs.any (fun q' => q'.qid == q.qid && q'.amount ≥ q.amount)
+          let paid := as.any (fun a => a.qid == q.qid && !(prevAs.any (fun p => p.qid == a.qid && p.ts == a.ts)))
+          if !(kept || paid) then return (false, s!"tip {q.amount} of query {q.qid} (round {q.id}) vanished after h={h} without an aggregate")
+      prevQs := qs
+      prevAs := as
       for q in qs do
         if q.hasRev && q.exp ≤ h then return (false, s!"round {q.qid}:{q.id} holds reports and expired at {q.exp} but is still open after h={h}")
       for e in commaList (" ".intercalate rest) do
